@@ -148,6 +148,13 @@ func prepareHost(dir string) {
 	mustGit(dir, "config", "author.name", "Ann Lee <ann.lee@example.org>")
 	mustGit(dir, "config", "committer.email", "c<d>@example.org")
 	mustGit(dir, "config", "alias.co", "checkout")
+	// other tools' sections whose names begin like git-bug's own (its section is exactly `git-bug`)
+	mustGit(dir, "config", "git-bug-sync.interval", "5")
+	mustGit(dir, "config", "git-bug-sync.remote", "backup")
+	mustGit(dir, "config", "Git-Bug-Hooks.precommit", "true")
+	mustGit(dir, "config", "gitbugzilla.url", "https://bugzilla.example.org")
+	mustGit(dir, "config", "git-bu.x", "1")
+	mustGit(dir, "config", "git.bug", "1")
 	mustGit(dir, "config", "core.autocrlf", "false")
 	hx.Must(os.WriteFile(filepath.Join(dir, "README.md"), []byte("# host project\n"), 0o644))
 	hx.Must(os.MkdirAll(filepath.Join(dir, "src"), 0o755))
